@@ -19,6 +19,16 @@ def _recording_find(*a, **k):
     return r
 
 
+_explorer = explorer
+
+
+def explorer(ctx):
+    """the shared explorer, answering random.sample with ordered selections (every k-permutation for <= 5 matches)"""
+    ex = _explorer(ctx)
+    ex.rshim.permutations = True
+    return ex
+
+
 MM.find_pattern_in_structure = _recording_find      # harness-side seam: replace_* looks the name up in its module
 
 
@@ -35,13 +45,14 @@ def pairs(pname):
     if k > 1:
         out.append(('identical, atoms listed in reverse order', list(pel)[::-1], pp[::-1].copy()))
         out.append(('grown, shared atoms listed last and reversed', ['F'] + list(pel)[::-1], np.vstack([pp[-1] + [0.4, 0.9, 1.1], pp[::-1]])))
+    out.append(('grown, with atoms 12 A and 21 A away (more than one / two cell lengths)', pel + ['F', 'He'], np.vstack([pp, pp[0] + [12.0, 0.7, 0.3], pp[0] + [-0.5, 21.0, 1.0]])))
     out.append(('identical but last atom displaced by 0.04 A', list(pel), np.vstack([pp[:-1], pp[-1:] + [0.0, 0.04, 0.0]])))
     out.append(('disjoint larger', ['Xe', 'He', 'Ne'][:1] * 1 + ['He', 'Ne'] + ['Kr'] * (k - 1), np.vstack([pp[:1] + [0.3, 0.3, 0.3], pp[:1] + [1.0, -0.9, 0.4], pp[:1] + [-0.8, 1.1, 0.2]] + [pp[j:j + 1] + [0.2, -0.35, 0.45] for j in range(1, k)])))
     return out
 
 
 PAIR_NAMES = [p[0] for p in pairs('CNO')]
-INSERTING = ['one element changed', 'all elements changed', 'grown (shared core + 2 atoms)', 'grown, shared atoms listed last and reversed', 'identical but last atom displaced by 0.04 A', 'disjoint larger']
+INSERTING = ['one element changed', 'all elements changed', 'grown (shared core + 2 atoms)', 'grown, shared atoms listed last and reversed', 'grown, with atoms 12 A and 21 A away (more than one / two cell lengths)', 'identical but last atom displaced by 0.04 A', 'disjoint larger']
 
 
 def shared_map(pel, pp, rel, rp):
@@ -122,6 +133,8 @@ def selected_matches(answers, rec, fraction):
     k, m = int(pts[0][0].split()[1]), int(pts[0][0].split()[3])
     if m != M:
         return None
+    if pts[0][0].startswith('sample-ordered'):
+        return list(list(itertools.permutations(range(M), k))[pts[0][2]])
     from mc.engine.choices import nth_combination
     return list(nth_combination(M, k, pts[0][2]))
 
